@@ -127,7 +127,7 @@ ADDED = {
  "C18": "Also: AddProxy succeeds only after tracking the proxy. The code that registers a will does not return the registered command object to the pool. The will drain dispatches through the closing protocol object and every tracked proxy is repointed before the list is truncated; no reply is sent on the text reply channel once the connection is closed (a reproduced blocked Close was repaired).",
  "C03": "Also: the text protocol zeroes its request-id filter before handing a reply to the connection. UpdateLockedLock makes the request's command the hold's command on every path. Text handlers take the engine's answer out of the reply channel (a reproduced stale-reply defect of PUSH was repaired).",
  "C20": "Also: slice-and-cursor queues reset the cursor whenever the slice is re-based; the wait queue's overflow field and its mode sentinel change together.",
- "C19": "Also: acquire methods report success only for result 0; the client reader decodes every reply into a fresh object. Lock ids come from protocol.GenLockId only.",
+ "C19": "Also: acquire methods report success only for result 0; the client reader decodes every reply into a fresh object. Lock ids come from protocol.GenLockId only. Server side of Event.Wait: the wake-up pass grants a waiter at depth 0 only after testing its unlock_to_wait flag (defect repaired).",
 }
 
 NA = {
